@@ -33,10 +33,17 @@ var pagerFamilies = []pagerFamily{
 	{"file-dash", func(b string, k int) string { return fmt.Sprintf("%s/news/story-%d.html", b, k) }},
 	{"two-numbers", func(b string, k int) string { return fmt.Sprintf("%s/zine/%d/piece-%d", b, (k+1)/2, k) }},
 	{"query-multi", func(b string, k int) string { return fmt.Sprintf("%s/list?cat=%d&page=%d&sort=%d", b, 1+k%2, k, 2) }},
+	// the first page is the directory itself (page URL with a trailing slash), the others live below it
+	{"dir-sub-num", func(b string, k int) string {
+		if k <= 1 {
+			return b + "/forum/thread-12/"
+		}
+		return fmt.Sprintf("%s/forum/thread-12/%d", b, k)
+	}},
 }
 
 var pagerItemKinds = []wc{{"link", 50}, {"plain", 8}, {"decorated", 5}, {"js", 7}, {"empty", 5}, {"offsite", 5}, {"mailto", 3}, {"malformed", 3},
-	{"pattern2", 5}, {"queryonly", 6}, {"fragment", 2}, {"lookalike", 3}, {"userinfo", 3}, {"schemerel", 3}, {"upperhost", 2}, {"relative", 5}, {"otherscheme", 2}}
+	{"pattern2", 5}, {"queryonly", 6}, {"fragment", 2}, {"lookalike", 3}, {"userinfo", 3}, {"schemerel", 3}, {"upperhost", 2}, {"relative", 5}, {"otherscheme", 2}, {"padded", 4}, {"docrel", 5}}
 
 func genPager(t *rapid.T) pagerPage {
 	g := newG(t, articleProfile())
@@ -50,10 +57,34 @@ func genPager(t *rapid.T) pagerPage {
 	kinds := map[string]bool{}
 	otherHost := g.pick("ohost", "other.example.net", "example.com.evil.net", "evil-example.com")
 
+	cur := fam.link(base, k)
+	if g.chance(15, "bareurl") {
+		// the first page often has no page parameter
+		cur = strings.SplitN(fam.link(base, 1), "?", 2)[0]
+	}
 	hrefFor := func(kind string, i int) string {
 		switch kind {
 		case "link":
 			return fam.link(base, i)
+		case "padded":
+			// white space around the value is not part of the reference
+			u := fam.link(base, i)
+			if g.chance(60, "padrel") {
+				u = u[len(base):]
+			}
+			return g.pick("padl", " ", "\n", "\t ", "") + u + g.pick("padr", " ", "\n", " \t", " ")
+		case "docrel":
+			// relative to the directory of the page URL where the target lies below it
+			u := fam.link(base, i)
+			dir := cur
+			if q := strings.IndexAny(dir, "?#"); q >= 0 {
+				dir = dir[:q]
+			}
+			dir = dir[:strings.LastIndex(dir, "/")+1]
+			if strings.HasPrefix(u, dir) && len(u) > len(dir) && len(dir) > len(base) {
+				return u[len(dir):]
+			}
+			return u[len(base):]
 		case "relative":
 			u := fam.link(base, i)
 			return u[len(base):]
@@ -186,11 +217,6 @@ func genPager(t *rapid.T) pagerPage {
 		kinds["second-pager"] = true
 	}
 	b.WriteString("</body></html>")
-	cur := fam.link(base, k)
-	if g.chance(15, "bareurl") {
-		// the first page often has no page parameter
-		cur = strings.SplitN(fam.link(base, 1), "?", 2)[0]
-	}
 	return pagerPage{HTML: b.String(), PageURL: cur, Kinds: kinds}
 }
 
